@@ -117,6 +117,7 @@ def _client(args) -> Dict[str, Any]:
         a: Dict[str, Any] = {}
         del C.LOG[:]
         try:
+            common.arm(60)
             if op["op"] == "keep":
                 r = dds.keep(op["q"], getattr(mod, op["k"]))
                 ok = type(r) is type(VALUES[op["k"]]) and r == VALUES[op["k"]]
@@ -153,6 +154,7 @@ def _client(args) -> Dict[str, Any]:
         a["blob_hex"] = {k: _raw_bytes(k).hex() for k in KEYS}
         a["sig"] = sig
         out.append(a)
+    common.disarm()
     return {"answers": out, "setup_error": None}
 
 
